@@ -59,14 +59,18 @@ Definition deg_ok (SE : list (Z * Z)) (T : list Z) : bool :=
 Definition inner_linking (E SE : list (Z * Z)) : bool :=
   forallb (fun e => Nat.eqb (outdeg E (fst e)) 1 && Nat.eqb (indeg E (snd e)) 1) SE.
 
+(* np.asarray(node_ids, dtype=np.int64): ids are uint64 in a geff; the conversion is injective on [0, 2^64), so the
+   graph is unchanged up to renaming, but a node id >= 2^63 is PRINTED by the message as its int64 wrap *)
+Definition as_int64 (z : Z) : Z := if z >=? 9223372036854775808 then z - 18446744073709551616 else z.
+
 Definition back_msg (E : list (Z * Z)) (st : Z) : option reason :=
   match preds E st with
-  | [p] => if Nat.eqb (outdeg E p) 1 then Some (RBack p) else None
+  | [p] => if Nat.eqb (outdeg E p) 1 then Some (RBack (as_int64 p)) else None
   | _ => None
   end.
 Definition fwd_msg (E : list (Z * Z)) (en : Z) : option reason :=
   match succs E en with
-  | [s] => if Nat.eqb (indeg E s) 1 then Some (RFwd s) else None
+  | [s] => if Nat.eqb (indeg E s) 1 then Some (RFwd (as_int64 s)) else None
   | _ => None
   end.
 
